@@ -312,6 +312,41 @@ func checkC11(r *evid.Run) {
 		rq.Procs = 4
 		jobs = append(jobs, job{pc, rq, "early", false})
 	}
+	// back-pressure: the sink is held (a blocked writer, callbacks that do not return) until every stage is full and the
+	// splitter is handing over its LAST block with nobody there to take it; then the caller cancels, or the writer
+	// starts failing; then the sink is let go.  As many blocks as the stages hold plus one (10 workers per stage, one
+	// sink goroutine for the encoder and dry-run sinks); if the splitter does not get to its last block the job has
+	// no verdict (Unforced).
+	for _, sink := range []string{"text", "walk", "enc", "dry"} {
+		n := 31
+		if sink == "enc" || sink == "dry" {
+			n = 22
+		}
+		fv := make([]string, n)
+		for i := range fv {
+			fv[i] = "ok"
+		}
+		for _, then := range []string{"cancel", "wfail"} {
+			if then == "wfail" && sink == "walk" {
+				continue
+			}
+			for rep := 0; rep < 2; rep++ {
+				pc := buildPipeCase(sink, fv, n+1)
+				rq := pc.Req
+				rq.Stall = &wproto.Stall{Blocks: n, Then: then}
+				rq.Record = false
+				rq.Procs = []int{16, 4}[rep]
+				c := "at-end"
+				if then == "wfail" {
+					pc.Fates = append([]string{}, fv...)
+					pc.Fates[0] = "sinkErr" // (for the oracle: the call is faulty once a Write has been refused)
+					rq.WFault = &wproto.WFault{How: "fail", At: 1 << 30}
+					c = "no"
+				}
+				jobs = append(jobs, job{pc, rq, c, false})
+			}
+		}
+	}
 	// From-Root entry points with a cancelled context (the feeder's send)
 	for _, sink := range []string{"text", "enc", "dry", "walk", "mkdir", "verify"} {
 		for rep := 0; rep < 6; rep++ {
@@ -350,6 +385,13 @@ func checkC11(r *evid.Run) {
 			defer func() { <-sem }()
 			rp := pool.Call(j.rq, 60*time.Second)
 			r.Count("real_calls", 1)
+			if j.rq.Stall != nil {
+				if rp.Unforced {
+					r.Count("backpressure_jobs_not_reached", 1) // the splitter never got to its last block: nothing concluded
+					return
+				}
+				r.Count("backpressure_jobs", 1)
+			}
 			if isFaulty(j.pc.Fates, j.pc.ReadFail) || j.cancelled != "no" {
 				r.Count("distinct_nontrivial", 1)
 			}
@@ -362,7 +404,7 @@ func checkC11(r *evid.Run) {
 		}(j)
 	}
 	wg.Wait()
-	r.Set("rule", "massive-mode calls for every sink (text, JSON, dry-run, mkdir, verify, walk): every fate vector up to 3 (thorough 4) blocks over the stages that sink can fail in, 5/8/12-block documents failing in three of every four blocks, reader failure at every block boundary, cancellation before the call and at input offsets (every offset in the thorough tier), From-Root entry points with a cancelled context; GOMAXPROCS in {1,2,4,16}, seeded delays at hook points, yielding reader/writer/callback; non-trivial = a faulty or cancelled call")
+	r.Set("rule", "massive-mode calls for every sink (text, JSON, dry-run, mkdir, verify, walk): every fate vector up to 3 (thorough 4) blocks over the stages that sink can fail in, 5/8/12-block documents failing in three of every four blocks, reader failure at every block boundary, cancellation before the call and at input offsets (every offset in the thorough tier), From-Root entry points with a cancelled context, back-pressure jobs (the sink held until every stage is full and the splitter is handing over its last block, then a cancellation or a failing writer); GOMAXPROCS in {1,2,4,16}, seeded delays at hook points, yielding reader/writer/callback; non-trivial = a faulty or cancelled call")
 	r.Sample(map[string]any{"request": jobs[len(jobs)/3].rq, "fates": jobs[len(jobs)/3].pc.Fates})
 
 	// 3. recorded traces against the specification (Layer M + Layer P), several TLC runs side by side
